@@ -6,8 +6,11 @@
     atomic operations CREATE / UID COPY / UID STORE (incl. the Junk move) /
     EXPUNGE of Model/Ops.v; deliveries and appends advance by ATOMIC MICRO-STEPS
     (one SQL statement each) with the uid handed out by the allocation step kept
-    in a thread-local register (state of the code: with
-    fixes/c08-atomic-uidnext.patch and fixes/c08-deliver-folder-race.patch).  A schedule is any list of thread indices;
+    in a thread-local register; a delivery or a LOGIN may be the FIRST CONTACT
+    with the store ([PFirstDeliver], [PLogin]: count the mailboxes, then the
+    initialisation transaction).  State of the code: with
+    fixes/c08-init-defaults-lock.patch (the count is repeated under BEGIN
+    IMMEDIATE).  A schedule is any list of thread indices;
     [run_sched] interleaves accordingly.  Theorems hold for EVERY schedule and
     every list of programs, from every initial store that satisfies
     UNIQUE(mailbox_id,uid) and whose links refer to allocated message rows
@@ -113,6 +116,21 @@ Theorem c08_counters_agree : forall s ps sch,
               mb_id m = lk_mbox l -> lk_uid l < mb_next m.
 Proof. exact c08_counters_agree_l. Qed.
 Print Assumptions c08_counters_agree.
+
+(** first contact: a brand-new user's store has NO mailbox rows; the theorems
+    above apply to it ([PFirstDeliver], [PLogin] threads count the mailboxes and
+    initialise the store themselves, [simple] holds for them) *)
+Theorem good_store_empty : good_store empty_store.
+Proof. exact good_store_empty_l. Qed.
+Print Assumptions good_store_empty.
+
+(** regression instance of the repaired store-initialisation race: two first
+    deliveries and a LOGIN that ALL see the empty mailboxes table before any of
+    them initialises: three OK, five default mailboxes, UIDNEXT 3, UIDs 1, 2 *)
+Theorem c08_regression_first_contact :
+  eval_first (f_ps, f_sch) = ([1; 1; 1], 5, 3, 2, 1).
+Proof. exact c08_regression_first_contact_l. Qed.
+Print Assumptions c08_regression_first_contact.
 
 Theorem good_store_init : forall t, good_store (init t).
 Proof. exact good_store_init_l. Qed.
